@@ -631,7 +631,8 @@ def search(payload):
         bad_out = check_in_language(ts, text)
         if bad_out is not None:
             fails.append({"text": text, "tokens": ts, **bad_out})
-            if len(fails) >= 40:
+            # listed failing inputs do not count towards the cap (they would hide everything enumerated after them)
+            if sum(1 for f in fails if not (f.get("optimize") and " ".join(f["tokens"]) in listed)) >= 60:
                 break
     for ts, text in bad:
         n += 1
